@@ -32,9 +32,9 @@ class Prop(SeqProp):
     pid = "C20"
     model = "tmppool"
     anchors = ["windpyutils/files.py"]
-    quick_cases = 250
+    quick_cases = 800
     thorough_cases = 2500
-    quick_mp = 8
+    quick_mp = 24
     thorough_mp = 60
     rule = ("TmpPool: random create/remove/flush scripts with files deleted behind the pool's back, removal of unlisted paths, "
             "and the with-body left normally or through an exception at a random step; single-process pools in-process, "
